@@ -92,15 +92,15 @@ func menuFor(profile string) []opGen {
 		return []opGen{
 			{"delegate", 6, opDelegate}, {"undelegate", 6, opUndelegate}, {"redelegate", 2, opRedelegate},
 			{"unjail", 6, opUnjail}, {"opt-in", 4, opOptIn}, {"opt-out", 4, opOptOut}, {"assign-key", 6, opAssignKey},
-			{"update-consumer", 5, opUpdateConsumer}, {"gov-params", 2, opGovParams}, {"gov-staking", 1, opGovStaking},
-			{"create-consumer", 1, opCreateConsumer},
+			{"update-consumer", 3, opUpdateConsumer}, {"gov-params", 2, opGovParams}, {"gov-staking", 1, opGovStaking},
+			{"create-consumer", 1, opCreateConsumer}, {"infraction", 8, opInfraction},
 		}
 	case "lifecycle":
 		return []opGen{
 			{"create-consumer", 14, opCreateConsumer}, {"update-consumer", 14, opUpdateConsumer}, {"remove-consumer", 5, opRemoveConsumer},
 			{"opt-in", 10, opOptIn}, {"opt-out", 3, opOptOut}, {"assign-key", 4, opAssignKey}, {"commission", 2, opCommission},
 			{"delegate", 3, opDelegate}, {"undelegate", 3, opUndelegate},
-			{"to-gov", 3, opToGov}, {"gov-topn", 4, opGovTopN}, {"gov-staking", 1, opGovStaking},
+			{"to-gov", 3, opToGov}, {"gov-topn", 4, opGovTopN}, {"gov-staking", 2, opGovStaking}, {"infraction", 12, opInfraction},
 		}
 	case "rewards":
 		return []opGen{
@@ -209,6 +209,7 @@ func (w *World) setupLive() {
 		ps, _ := w.P.PApp.ProviderKeeper.GetConsumerPowerShapingParameters(w.P.Ctx(), ci.ID)
 		ps.Top_N = topNMenu[w.Rnd.Intn(len(topNMenu))]
 		w.propsThisStep = 0
+		w.createsThisStep = 0
 		op := w.withVotes(one("gov-topn", w.Accts["faucet"], GovProposal(w.Accts["faucet"], &providertypes.MsgUpdateConsumer{Owner: GovAddr(), ConsumerId: ci.ID, PowerShapingParameters: &ps})))
 		w.Tick()
 		w.ProviderStep(op.Specs, false, nil)
@@ -265,6 +266,7 @@ func (w *World) MainLoop() {
 		var specs []TxSpec
 		solo := false
 		w.propsThisStep = 0
+		w.createsThisStep = 0
 		nops := w.Rnd.Intn(4)
 		for i := 0; i < nops; i++ {
 			op := w.pickOp()
